@@ -191,6 +191,28 @@ def gen(seed, tier):
     out.append("s_zfill A1:.2d z0")
     out.append("s_capitalize A2:.,.61")
     out.append("s_replace A1:.6162 A1:.61 A1:.6261 n")
+    # public operations WITHOUT a model, out-of-domain arguments only (`monp`: the harness answers z(1) for an error
+    # value or a well-formed result and `panic` for a panic; the model side is the constant z(1)) — finding F31
+    M = lambda name, ty, rest: out.append(f"monp@{ty} s{hexs(name)} {rest}")
+    for sh in ([3], [2, 3], [2, 2, 2], [1, 2, 3, 2]):
+        n = len(sh)
+        a = arr(sh)
+        tot = prod(sh)
+        for ty in ("i32", "f64"):
+            for ax in [n, n + 1, n + 3, -n - 1, -n - 2] + BIG:
+                for k in (1, 2):
+                    M("diff", ty, f"{a} {z(k)} {z(ax)} n n")
+            for lo, hi in ((tot + 1, tot + 2), (2, 1), (0, tot + 1), (tot, tot + 3), (2 ** 31, 2 ** 31 + 1)):
+                M("slice", ty, f"{a} {z(lo)} {z(hi)}")
+            M("indices_at", ty, f"{a} {lst([tot])}")
+            M("indices_at", ty, f"{a} {lst([0, tot + 5])}")
+            M("indices_at", ty, f"{a} {lst([2 ** 31])}")
+            for name in ("nope", "", "Full", "valid "):
+                M("convolve", ty, f"{arr([3])} {arr([2])} s{hexs(name)}")
+            M("clip", ty, f"{a} {arr([4], [0, 1, 2, 3])} n")
+            M("clip", ty, f"{a} n {arr([2, 5], list(range(10)))}")
+        for ax in [n, n + 1, -n - 1, -n - 2] + BIG:
+            M("unwrap_phase", "f64", f"{a} {z(ax)}")
     return out
 
 
